@@ -4,6 +4,7 @@ import (
 	"encoding/json"
 	"fmt"
 	"os"
+	"reflect"
 	"runtime/debug"
 	"strings"
 	"testing"
@@ -14,10 +15,12 @@ import (
 	"pgregory.net/rapid"
 
 	"verif/h/am"
+	"verif/h/corpus"
 	"verif/h/emit"
 	"verif/h/gen"
 	"verif/h/hx"
 	"verif/h/lx"
+	"verif/h/walk"
 )
 
 func TestMain(m *testing.M) {
@@ -233,6 +236,73 @@ func TestEqualPreservedByPrintParse(t *testing.T) {
 		}
 		hx.SampleCase(test, c.String())
 	})
+}
+
+// TestExternalCorpus: the type universes of real compiler output. Inside one module type names are
+// unique and only structs are named, so two types are the same LLVM type exactly when they print alike
+// (named structs print as their name); that spelling is the reference for Equal on every pair.
+func TestExternalCorpus(t *testing.T) {
+	const test = "ExternalCorpus"
+	hx.Rule(test, "all types reachable in each parsed module of the clang-14 corpus (C and C++ class hierarchies with vtables and recursive structs, OpenCL address-space pointers, vectors, function pointers; up to 160 distinct type objects per module, quick: every second case): for every ordered pair Equal(a, b) must hold exactly when the two types print identically, and must equal Equal(b, a); Equal(a, a) holds; a stack overflow kills the shard and is reported by the driver. Non-trivial = module with an identified struct")
+	for i, c := range corpus.ClangCases() {
+		if !hx.Mine(i) || !hx.Thorough() && i%2 != 0 {
+			continue
+		}
+		x := c.Text()
+		if x == "" || len(x) > 300<<10 {
+			hx.Discard("clang_rejects_combination_or_too_large")
+			continue
+		}
+		pm, err, p := lx.Parse(x)
+		if err != nil || p != nil {
+			hx.Discard("parser_does_not_accept(judged_by_C01)")
+			continue
+		}
+		hx.Trace(test, "ll", x)
+		var ts []types.Type
+		seen := map[uintptr]bool{}
+		named := false
+		walk.Walk(pm, func(v reflect.Value, path string) bool {
+			if len(ts) >= 160 || v.Kind() != reflect.Ptr || v.IsNil() || !v.CanInterface() {
+				return true
+			}
+			ty, ok := v.Interface().(types.Type)
+			if !ok || seen[v.Pointer()] {
+				return true
+			}
+			seen[v.Pointer()] = true
+			ts = append(ts, ty)
+			if st, ok := ty.(*types.StructType); ok && st.TypeName != "" {
+				named = true
+			}
+			return true
+		})
+		strs := make([]string, len(ts))
+		for k, ty := range ts {
+			strs[k] = ty.String()
+		}
+		src := "; source: clang-14 " + c.Name() + "\n"
+		for a := range ts {
+			for b := range ts {
+				var ab, ba bool
+				if pv := lx.Guard(func() { ab, ba = ts[a].Equal(ts[b]), ts[b].Equal(ts[a]) }); pv != nil {
+					hx.Fail(t, test, "ll", src+x, "Equal(%s, %s) panics: %s", strs[a], strs[b], pv)
+				}
+				want := strs[a] == strs[b]
+				if ab != want {
+					hx.Fail(t, test, "ll", src+x, "Equal(%s, %s) = %v, but the two types print %s", strs[a], strs[b], ab, map[bool]string{true: "identically", false: "differently"}[want])
+				}
+				if ab != ba {
+					hx.Fail(t, test, "ll", src+x, "not symmetric: Equal(%s, %s) = %v, Equal(%s, %s) = %v", strs[a], strs[b], ab, strs[b], strs[a], ba)
+				}
+			}
+		}
+		hx.Eval(len(ts) * len(ts))
+		hx.HistN("external/types", len(ts))
+		if named {
+			hx.NonTrivial("clang/" + c.Name())
+		}
+	}
 }
 
 // TestCatalogue: fixed recursive universes.
